@@ -412,6 +412,10 @@ func (w *c12World) collect() [][2]int {
 }
 
 func runC12(c *core.Ctx) {
+	if c.T.Bias(1, 20, "short-reads") {
+		runC12ShortRead(c)
+		return
+	}
 	if c.T.Bias(1, 12, "multi-two-muxes") {
 		runC12MultiTwo(c)
 		return
@@ -569,7 +573,26 @@ func runC12Seq(c *core.Ctx) {
 				continue
 			}
 			prev := int(w.st.Bind[a])
+			// socket fault: the operating system refuses this send (ENOBUFS, EPERM, a deadline). Injected only
+			// where it changes nothing under either reading of "wrote to": the address is bound to this very
+			// connection already, by an earlier write that did go out
+			fault := k != 0 && prev == k && w.st.CReg[k-1] && !w.st.CClosed[k-1] && !w.closed && t.Bias(1, 3, "socket-write-error")
+			if fault {
+				w.w.Lock()
+				w.sock.WriteErr = errInjected
+				w.w.Unlock()
+				c.Fault("socket-write-error-on-bound-address")
+			}
 			ok := w.doWrite(h, a, t.Bias(1, 3, "mapped"), t.Bias(1, 2, "writeAP"))
+			if fault {
+				w.w.Lock()
+				w.sock.WriteErr = nil
+				w.w.Unlock()
+				if ok {
+					c.Failf("C12/write-error-swallowed", "the socket refused the send, WriteTo reported success")
+					return
+				}
+			}
 			c.Logf("h%d.WriteTo(a%d) ok=%v", h, a, ok)
 			w.apply(c12Op{Kind: c12OpWrite, H: h, A: a}, c12Res{OK: ok})
 			if now := int(w.st.Bind[a]); prev != 0 && now != prev {
